@@ -134,7 +134,7 @@ def traverseSlotG (t : TTreeG) : Nat → Nat → List Str → Str → Slot
             | none => flagOrPositional cs fs c flagOk p value
 where
   seriesFix (fs : FlagSetG) (flagOk : Bool) (inArgs : List Str) (value : Str) : List Str :=
-    if flagOk && isShorthandSeries value then
+    if flagOk && isShorthandSeries value && isPosixG fs then
       match lookupArgG fs value with
       | some lf =>
         if (lf.args.isEmpty || lf.args.head? == some []) && (!lf.flag.noOptDef || lf.prefix_.getLast? == some lf.flag.delim) then
@@ -152,7 +152,7 @@ where
       | some f =>
         if !f.args.isEmpty then
           (if !f.flag.takesValue && f.flag.noOptDef && f.flag.name != [] then .boolValues c f.prefix_ else .flagValueAttached c f.flag.name f.prefix_)
-        else if !Str.hasPrefix value ['-', '-'] && !f.flag.noOptDef && f.prefix_ == value then .flagValueAttached c f.flag.name f.prefix_
+        else if isPosixG fs && !Str.hasPrefix value ['-', '-'] && !f.flag.noOptDef && f.prefix_ == value then .flagValueAttached c f.flag.name f.prefix_
         else .flagNames c
       | none => .flagNames c
     else .positional c p.args.length
